@@ -74,3 +74,15 @@ UNIT = {
          ]},
     ],
 }
+
+# Known finding F35 (witness): the enumerators of an enum declared inside a class template are all emitted with the value 0
+# (libclang does not compute them in a dependent context and reports 0); C05 demands the C value "or it is omitted".
+# Expected to FAIL on the unchanged tree: the value statement does not look at where the enumerator is declared.
+import copy as _copy
+_w = _copy.deepcopy(next(i for i in UNIT["items"] if i.get("name") == "enum_value_of"))
+_w["rename"] = "enum_value_of__in_template"
+_w["rename_tag"] = "@template_enumerators_F35"
+_w["witness"] = True
+_w["closure"]["signature"] = _w["closure"]["signature"].replace("fn enum_value_of(", "fn enum_value_of__in_template(")
+_w["ensures"] = ["ffi_in_template(cursor.x) && ffi_cursor_kind(cursor.x) == CXCursor_EnumConstantDecl ==> r.is_none()"]
+UNIT["items"].append(_w)
